@@ -314,6 +314,9 @@ func c03Shrink(c *Ctx, cs c03Case, sig string) c03Case {
 	for i := 0; i < len(cs.Profiles) && len(cs.Profiles) > 1; {
 		x := cs
 		x.Profiles = append(append([]string{}, cs.Profiles[:i]...), cs.Profiles[i+1:]...)
+		if len(cs.Pasts) == len(cs.Profiles) {
+			x.Pasts = append(append([]string{}, cs.Pasts[:i]...), cs.Pasts[i+1:]...)
+		}
 		x.Perm = mkPerm(len(x.Profiles))
 		if try(x) {
 			cs = x
